@@ -17,6 +17,9 @@ ENUMS = [
     {"k": "enum", "cls": "Prio", "members": ["P0", "P1", "P2"], "values": [0, 1, 2]},
     # a class NAME that is also a name of the typing module (matters where annotations are strings, fix 2754edb)
     {"k": "enum", "cls": "Counter", "members": ["ONE", "TWO", "MANY"]},
+    # class Toggle(str, Enum) whose VALUES are the other member's NAME: a member that is looked up again by name (it is a
+    # str) silently becomes the other member (fix 69d4809)
+    {"k": "enum", "cls": "Toggle", "members": ["ON", "OFF"], "values": ["OFF", "ON"]},
 ]
 BASES = ["int", "float", "str", "bool", "path", "enum"]
 INTS = [0, 1, -1, 7, -5, 42, 10**30, -(10**18), 1000000, 3]
